@@ -28,7 +28,7 @@ var c16Configs = []struct{ Plugin, Param string }{
 
 // C16: every plugin terminates with an answer for every well-formed request.
 func C16(c *Ctx, r *report.Run) error {
-	r.Rule = "every descriptor shape of the F-shape universe (all reference graphs over n messages with edge kinds singular/repeated/map/oneof/flatten/flatten-with-prefix incl. self and mutual recursion (n<=2: any number of edges; n=3: at most 2 reference edges quick, at most 3 edges of any kind thorough), deviation-bounded by edge count; cliques of 2..12 mutually referring messages; degenerate files; nesting depth ladders) x 7 plugin/parameter configurations, each run in a subprocess under timeout and address-space limit; a case is non-trivial when the graph has at least one edge or the file is degenerate; distinct = (cell, plugin, param, outcome)"
+	r.Rule = "every descriptor shape of the F-shape universe (all reference graphs over n messages with edge kinds singular/repeated/map/oneof/flatten/flatten-with-prefix incl. self and mutual recursion (n<=2: any number of edges; n=3: at most 2 reference edges quick, at most 3 edges of any kind thorough), deviation-bounded by edge count; cliques of 2..12 mutually referring messages; degenerate files; nesting depth ladders; plus every schema of the core and extended families: identifier shapes, header names, annotation cardinalities, routes, bindings, feature pairs) x 7 plugin/parameter configurations, each run in a subprocess under timeout and address-space limit; a case is non-trivial when the graph has at least one edge or the file is degenerate; distinct = (cell, plugin, param, outcome)"
 	var specs []*spec.Spec
 	if c.Thorough {
 		specs = append(specs, univ.ShapeGraphsK(1, -1, 7)...)
@@ -44,6 +44,10 @@ func C16(c *Ctx, r *report.Run) error {
 	specs = append(specs, univ.ShapeCliques()...)
 	specs = append(specs, univ.ShapeDegenerate(c.Thorough)...)
 	specs = append(specs, univ.CoreSpecs()...)
+	// ... and every accepted schema of the extended families (identifier shapes, header names, annotation cardinalities, routes,
+	// bindings, pairs of codec features): termination must not depend on names or annotations either
+	specs = append(specs, univ.Extended(c.Thorough)...)
+	specs = append(specs, univ.PairSpecs(c.Thorough)...)
 	r.Programs = len(specs)
 	type job struct {
 		s   *spec.Spec
